@@ -527,6 +527,27 @@ pub fn c16_case(env: &mut Env, rep: &mut Report, case_seed: u64, cfg: &C16Cfg) {
         }
         std::thread::sleep(std::time::Duration::from_millis(2));
     }
+    // the same name again with another code: must be refused, and the stored problem must stay what it is
+    if !negative && rng.chance(1, 3) {
+        let other = web_case(&mut rng, 3, true);
+        match add_problem(&mut s, &name, &other.text, parsing) {
+            Ok(r) if r.status == 409 => rep.count("duplicate_names_refused", 1),
+            Ok(r) => {
+                rep.violation("duplicate-name-accepted", format!("second POST /adf/add with the same name -> {} {}", r.status, r.text()), replay);
+                return;
+            }
+            Err(e) => rep.inconclusive.push(e),
+        }
+        for _ in 0..5 {
+            let Ok(r) = s.get(&path) else { break };
+            let Some(body) = r.json() else { break };
+            if let Err((sig, msg)) = check_body(rep, &case, &body, false, &dups) {
+                rep.violation(&sig, format!("(after a refused duplicate add) {}", msg), replay);
+                return;
+            }
+            std::thread::sleep(std::time::Duration::from_millis(3));
+        }
+    }
     // a sibling problem of the same user: its tasks must never show up in this problem's running_tasks
     if !negative && rng.chance(1, 2) {
         let sibling = format!("sibling {}", rng.below(100000));
